@@ -534,11 +534,21 @@ func (p *ServiceProcessor) ProcessClientStreamRequest(req *http.Request, path st
 			// of a stream: it is forwarded by one routine only, otherwise
 			// its messages could overtake each other.
 			inChan := reflect.ValueOf(reply)
+			// A handler that hands back no channel (and no error) has nothing
+			// to stream, and a routine receiving from a nil channel would
+			// wait for ever: handled like a failing handler, the stream ends
+			// and the service is told to stop right away.
+			noChan := inChan.IsNil()
+			if noChan {
+				log.Error(xerrors.New("the streaming handler returned a nil channel"))
+				ended = true
+				endStream()
+			}
 			known := forwarded[reply]
 			forwarded[reply] = true
 
 			outLock.Lock()
-			refused := outClosed
+			refused := outClosed || noChan
 			if !refused && !known {
 				forwarders++
 			}
@@ -547,6 +557,10 @@ func (p *ServiceProcessor) ProcessClientStreamRequest(req *http.Request, path st
 			go func() {
 				if !refused {
 					<-stopAll
+				}
+				if stopServiceChan == nil {
+					// the service does not want to be told
+					return
 				}
 				closing.Lock()
 				defer closing.Unlock()
